@@ -17,7 +17,7 @@ from __future__ import annotations
 import ast
 import re
 
-from .. import vg
+from .. import nf, vg
 from ..core import Ctx
 from ..envs import EnvA, generator_slot, generator_class
 from ..model import AnalysisError
@@ -180,6 +180,52 @@ def env_generator_attrs(ctx: Ctx):
                        f"{cname} reads self.generator.{attr} but its default generator {g.name} never defines it", construct=f"{cname}:generator-attr:{attr}")
         else:
             ctx.ob("C18.d", f"{cname}:generator-attributes", True, path, f"all self.generator.<attr> reads are defined by {g.name}")
+    atsp_triangle(ctx)
+    # C18.f: MTVRP generator -- time windows / service times are times, built from distances through the speed
+    from .. import units
+    menv = EnvA(ctx.repo, T.ALL_ENVS["MTVRPEnv"], "MTVRPEnv")
+    g_, gsl_ = generator_slot(ctx.repo, menv.cls)
+    if gsl_ is None:
+        raise AnalysisError("MTVRPGenerator._generate not analysable")
+    ctx.fn(gsl_.fi)
+    units.obligations(ctx, "C18.f", "MTVRPGenerator._generate", gsl_.it, gsl_.fr, gsl_.where, 15, declared_out=units.MTVRP_CELLS)
+
+
+def atsp_triangle(ctx: Ctx):
+    """C18.e: with tmat_class, the cost matrix is closed under the all-pairs shortest path relaxation: one Floyd-Warshall pass over
+    EVERY pivot 0..num_loc-1 (a necessary condition of the triangle inequality for every instance of every batch)."""
+    g = ctx.repo.get_class("rl4co/envs/routing/atsp/generator.py", "ATSPGenerator")
+    fi = g.methods["_generate"]
+    ctx.fn(fi)
+    it = vg.Interp(ctx.repo, g, inline_policy=lambda f, a: False)
+    fr = it.run_function(fi)
+    ok, why = False, "cost_matrix is not produced by a guarded relaxation loop"
+    cm = fr.ret.cells.get("cost_matrix") if isinstance(fr.ret, vg.TD) else None
+    loops = [n for n in ast.walk(fi.node) if isinstance(n, ast.For)]
+    if isinstance(cm, vg.S) and cm.op in ("phi", "ifexp") and len(loops) == 1:
+        t, a, b = cm.args
+        relaxed, raw = (a, b) if (t.op == "selfattr" and t.args[0] == "tmat_class") else ((b, a) if (t.op == "not" and t.args[0].op == "selfattr" and t.args[0].args[0] == "tmat_class") else (None, None))
+        if relaxed is not None and relaxed.op == "loop" and relaxed.args[0] is raw:
+            body = relaxed.args[1]
+            exits = [n for n in ast.walk(loops[0]) if isinstance(n, (ast.Break, ast.Continue, ast.Return))]
+            rng = loops[0].iter
+            all_pivots = isinstance(rng, ast.Call) and getattr(rng.func, "id", "") == "range" and len(rng.args) == 1 and ast.unparse(rng.args[0]) == "self.num_loc"
+            form = False
+            if nf._fn(body) == "torch.minimum" and len(body.args) == 3:
+                lv, sm = body.args[1], body.args[2]
+                if lv.op == "loopvar" and sm.op == "+" and all(x.op == "sub" and x.args[0] is lv and x.args[1].op == "tuple" and len(x.args[1].args) == 3 for x in sm.args):
+                    def piv(ix):
+                        e, r_, c_ = ix.args
+                        def is_i(z):
+                            return z.op == "list" and len(z.args) == 1 and z.args[0].op == "iter"
+                        def is_all(z):
+                            return z.op == "slice" and all(vg.is_const(y, None) for y in z.args)
+                        return ("col" if is_all(r_) and is_i(c_) else "row" if is_i(r_) and is_all(c_) else None) if e.op == "ellipsis" else None
+                    form = {piv(x.args[1]) for x in sm.args} == {"row", "col"}
+            diag = raw.op == "store" and vg.is_const(raw.args[2], 0)
+            ok = form and all_pivots and not exits and diag
+            why = f"d <- min(d, d[:, :, [i]] + d[:, [i], :]): {form}; for every pivot i in range(num_loc): {all_pivots}; no early exit from the pivot loop: {not exits}; zero diagonal: {diag}"
+    ctx.ob("C18.e", "ATSPGenerator._generate:triangle-closure", ok, fi.loc, why, construct="ATSPGenerator._generate:floyd-warshall")
 
 
 def run_thorough(ctx: Ctx):
